@@ -39,7 +39,11 @@ Lemma list_max_fresh ks : ~ In (S (lmax ks)) ks.
 Proof. intros Hin. apply lmax_ge in Hin. lia. Qed.
 
 Lemma alloc_fresh reuse s : NoDup (keys s) -> ~ In (alloc reuse s) (keys s).
-Proof. intros H. unfold alloc. destruct reuse; [now apply lowest_free_fresh|apply list_max_fresh]. Qed.
+Proof.
+  intros H. unfold alloc. destruct reuse; [now apply lowest_free_fresh|].
+  destruct (Nat.leb_spec (next_id s) (lmax (keys s))); [apply list_max_fresh|].
+  intros Hin. apply lmax_ge in Hin. lia.
+Qed.
 
 Lemma lookup_in t n id : NoDup (map fst t) -> In (n, id) t -> lookup n t = Some id.
 Proof.
